@@ -24,6 +24,9 @@ F: the rectangle the request stands for is computed here from the request alone 
    that rectangle with only the features the ID's space allows; a request without a defined rectangle (integer id without both
    ends or with allow_expansion=False, abs_pos together with line feeds, a negative abs_pos) must not put any placeholder cell
    on the screen.
+Grid `dargs_pid_grid` (same judgement): an ImagePlaceholder with placement id 0 / 1 / 255 / 0xABCDEF / 2^24-1 through every output
+   route of display_only (at the cursor, line feeds, abs_pos at the origin and elsewhere) and every final cursor position: each
+   route hands the request on to print_placeholder separately, and each must print cells that decode to the requested placement id.
 """
 from __future__ import annotations
 
@@ -442,6 +445,10 @@ def _dargs_reqs(c, res):
 def _judge_dargs(ctx: Ctx, c, res, replies):
     st, data, ret, mode = res[0], bytes.fromhex(res[1]), res[2], res[3]
     ctx.count("dargs:route:" + c["via"])
+    if c["via"] == "ph":
+        pid = c["own"][0]
+        ctx.count("dargs:placement-id:" + ("0" if pid == 0 else "1..255" if pid < 256 else "true-colour") + ":" +
+                  ("abs_pos" if c.get("pos") is not None else "line-feeds" if c.get("lf") else "at-cursor"))
     ctx.count("dargs:impl:" + st)
     if st.startswith("prep "):
         ctx.mismatch("dargs: the object to display could not be obtained", c, st, "an object")
@@ -574,6 +581,35 @@ def dargs_case(rng, n):
     place(rng, g)
     c.update(W=g["W"], H=g["H"], x0=g["x0"], y0=g["y0"])
     return c
+
+
+PIDS = [0, 1, 255, 0xABCDEF, 0xFFFFFF]       # none / 256-colour underline / its last value / a true-colour underline / the last placement id
+
+
+def dargs_pid_grid(rng):
+    """ImagePlaceholder ids carrying each kind of placement id x every output route of display_only (at the cursor - the route that
+    saves and restores the cursor per line -, line feeds, abs_pos at the origin and elsewhere) x where the cursor is left x one ID of
+    each feature class: every printed cell must decode to the REQUESTED placement id (and image id, row, column), whichever branch
+    of display_only hands the request on to print_placeholder."""
+    ids = [0x2A, 0x123456, 0x05000007, 0x7F000000, 0xFF0000FF]
+    routes = [dict(), dict(lf=1), dict(pos=[0, 0]), dict(pos=[3, 2])]
+    n = 0
+    for pid in PIDS:
+        for route in routes:
+            for fp in ("br", "bl", "tl", "def"):
+                for k in range(2):
+                    n += 1
+                    sc, sr = rng.choice([(0, 0), (0, 0), (1, 2), (5, 0)])
+                    own = [pid, sc, sr, sc + rng.randrange(1, 6), sr + rng.randrange(1, 4)]
+                    c = dict(k="dargs", id=ids[n % len(ids)], via="ph", own=own, ov=[None] * 4, bg=rng.choice([["none"], ["idx", 3], ["rgb", 1, 2, 255]]),
+                             sgr=rng.choice([["-", "-", "-"], ["r1.2.3", "i5", "i2"]]), fp=fp, cfgfp=rng.choice(["br", "tr", "tl", "bl"]), fewer=(n // 2) % 2)
+                    if k and rng.random() < 0.5:
+                        c["ov"][2] = own[3] + 1         # one more column than the object's own rectangle
+                    c.update({kk: (list(v) if isinstance(v, list) else v) for kk, v in route.items()})
+                    g = dict(rect=dargs_spec(c)[1][2:], pos=c.get("pos"))
+                    place(rng, g)
+                    c.update(W=g["W"], H=g["H"], x0=g["x0"], y0=g["y0"])
+                    yield c
 
 
 def _judge_alloc(ctx: Ctx, c: dict, res):
@@ -746,6 +782,8 @@ def cases(ctx: Ctx):
     # random ids of each space (by construction of the layout)
     for _ in range(600 if quick else 6000):
         yield mk(rng, _rand_id(rng))
+    # placement ids of every kind x every output route of display_only (at cursor, line feeds, abs_pos) x final cursor position
+    yield from dargs_pid_grid(rng)
     # the argument handling of display_only: what `id` may be, overrides, allow_expansion, abs_pos, final position, defaults
     for _ in range(1500 if quick else 15000):
         yield dargs_case(rng, _rand_id(rng) if rng.random() < 0.8 else
@@ -779,7 +817,9 @@ def run(ctx: Ctx):
                 "8bit_diacritic (IDSpace.all_ids, 65 535 IDs) x fewer_diacritics; family dargs: display_only(int | ImagePlaceholder | ImageInstance "
                 "constructed / from assign_id / from get_image_instance) x any subset of start/end overrides around the object's own rectangle x "
                 "allow_expansion on/off/not given x abs_pos none/valid/negative x line feeds x final_cursor_pos named/terminal default/unknown name x "
-                "fewer_diacritics given/left to the configuration, random IDs of the 5 spaces and byte-class IDs. distinct = canonical JSON; non-trivial = output produced")
+                "fewer_diacritics given/left to the configuration, random IDs of the 5 spaces and byte-class IDs; grid: ImagePlaceholder with placement id "
+                "0 / 1 / 255 / 0xABCDEF / 2^24-1 x route {at cursor, line feeds, abs_pos (0,0), abs_pos (3,2)} x final_cursor_pos br/bl/tl/default x "
+                "one ID of each feature class x fewer_diacritics: every printed cell decodes to the REQUESTED placement id, image id, row, column. distinct = canonical JSON; non-trivial = output produced")
     corpus_dir = Path(__file__).resolve().parent.parent / "corpus" / "C14"
     if corpus_dir.is_dir():
         for fp in sorted(corpus_dir.glob("*.json")):
